@@ -7,9 +7,14 @@ In a "lit" case the numbers are the values; in a "fine" case they are codes of t
 every entry point of the real library, with the numbers once as floats and once as ints, and records what came
 back.  It does not know what is valid.
 """
+import collections
 import copy
+import dataclasses
 import json
+from typing import Any
 from types import SimpleNamespace
+
+from pydantic import BaseModel
 
 from soundevent import data
 from soundevent.data import geometries as G
@@ -30,7 +35,8 @@ RULE = ("one case per (type tag, coordinate structure) of the TLA+ universe (fla
         "extra nesting, point lists, valid skeletons of the nine kinds, every single-position token edit of every skeleton, "
         "every skeleton under every tag; thorough: every double edit of the small skeletons) plus random multi-edit structures; "
         "each run through 6 entry points x 2 number renderings, and through the 5 container-passing entry points again with the "
-        "structure built from tuples (all levels / inner levels / outermost level); non-trivial = the structure is a non-empty list")
+        "structure built from tuples (all levels / inner levels / outermost level), and the attributes mode once per guise of the "
+        "attribute object (namespace, plain instance, dataclass, named tuple, foreign pydantic model without / with extra fields); non-trivial = the structure is a non-empty list")
 TRUSTED_BASE = ["checks/c03.py (token string <-> nested list, float/int rendering, calls the six entry points, "
                 "reads class/tag/coordinates back as exact integers, library == for the dump round trip)"]
 ASSUMPTIONS = ["coordinates are finite numbers: ints, integer-valued floats, and the non-integer doubles of GeomValidate!FineTable "
@@ -110,6 +116,39 @@ def _tables(case):
     return dict(pairs), {v: k for k, v in pairs}
 
 
+# ---- the guises of an attribute object (GeomValidate!Guises): carriers of `type` and `coordinates`, nothing more
+class _Plain:
+    def __init__(self, type, coordinates):
+        self.type = type
+        self.coordinates = coordinates
+
+
+@dataclasses.dataclass
+class _DataClass:
+    type: str
+    coordinates: Any
+
+
+_NamedTuple = collections.namedtuple("_NamedTuple", ["type", "coordinates"])
+
+
+class _Foreign(BaseModel):
+    """somebody else's pydantic model (built without validation: it only carries the two attributes)."""
+    type: str
+    coordinates: Any
+
+
+class _ForeignExtra(BaseModel):
+    type: str
+    coordinates: Any
+    note: str = "mine"
+    score: float = 0.5
+
+
+GUISES = {"namespace": lambda **d: SimpleNamespace(**d), "plain": _Plain, "dataclass": _DataClass, "namedtuple": _NamedTuple,
+          "pydantic": _Foreign.model_construct, "pydantic_extra": _ForeignExtra.model_construct}
+
+
 def _call(entry, kind, c):
     cls = getattr(data, kind)
     d = {"type": kind, "coordinates": copy.deepcopy(c)}
@@ -121,8 +160,9 @@ def _call(entry, kind, c):
         return data.geometry_validate(json.dumps(d), mode="json")
     if entry == "gv_dict":
         return data.geometry_validate(d, mode="dict")
-    if entry == "gv_attr":
-        return data.geometry_validate(SimpleNamespace(**d), mode="attributes")
+    if entry.startswith("gv_attr"):                    # "gv_attr" | "gv_attr/<guise>"
+        make = GUISES[entry.partition("/")[2] or "namespace"]
+        return data.geometry_validate(make(**d), mode="attributes")
     if entry == "sound_event":
         return data.SoundEvent(geometry=d, recording=_recording()).geometry
     raise KeyError(entry)
@@ -196,6 +236,9 @@ def execute(case):
     # the other containers, wherever Python containers are handed over (JSON text has arrays only)
     for how in _variants(c, case.get("conts", ["list"]))[1:]:
         runs += [_run(e, nums[0], case["kind"], c, table, back, how) for e in ENTRIES if e != "gv_json"]
+    # the attributes mode once per guise of the attribute object (the first guise is the one ENTRIES already ran)
+    for guise in case.get("guises", [])[1:]:
+        runs.append(_run("gv_attr/" + guise, nums[0], case["kind"], c, table, back))
     return {"runs": runs}
 
 
@@ -340,7 +383,7 @@ def random_cases(rng, tier):
         toks = enc(c)
         if len(toks) > 400:
             continue
-        yield {"kind": kind, "toks": toks, "c": c, "num": "lit", "vals": [], "conts": CONTS}
+        yield {"kind": kind, "toks": toks, "c": c, "num": "lit", "vals": [], "conts": CONTS, "guises": list(GUISES)}
     # the same generator over the codes of the fine table (non-integer doubles)
     global _T, _F, _BAD, _LINE_T
     lit = (_T, _F, _BAD, _LINE_T)
@@ -357,7 +400,7 @@ def random_cases(rng, tier):
                 continue
             toks = enc(c)
             if len(toks) <= 400:
-                yield {"kind": kind, "toks": toks, "c": c, "num": "fine", "vals": [[k, v] for k, v in FINE], "conts": CONTS}
+                yield {"kind": kind, "toks": toks, "c": c, "num": "fine", "vals": [[k, v] for k, v in FINE], "conts": CONTS, "guises": list(GUISES)}
     finally:
         _T, _F, _BAD, _LINE_T = lit
 
